@@ -176,11 +176,14 @@ def rate_vectors(params, values):
     return out
 
 
-def set_null(lf, model, rates, mprobs, lengths, scoped=None):
+def set_null(lf, model, rates, mprobs, lengths, scoped=None, const=False):
     if mprobs is not None and model not in EQUAL_FREQ_MODELS:
         lf.set_motif_probs(mprobs)
     for p, v in rates.items():
-        lf.set_param_rule(p, init=v)
+        if const:
+            lf.set_param_rule(p, value=v, is_constant=True)  # a rate held constant in the nested model
+        else:
+            lf.set_param_rule(p, init=v)
     for p, blocks in (scoped or {}).items():
         for edges, v in blocks:
             lf.set_param_rule(p, edges=list(edges), init=v)
@@ -200,9 +203,11 @@ def projection_case(acc, case):
     cls = "model nesting" if case["null"] != case["alt"] else "scope refinement"
     if case.get("null_scope") and case["null"] != case["alt"]:
         cls = "model nesting, scoped null"
+    if case.get("null_const"):
+        cls += ", rates held constant in the nested model"
     try:
         null = make_lf(case["null"], case["tree"], aln)
-        set_null(null, case["null"], rates, mp, LENGTHS[case["lengths"]], case.get("null_scope"))
+        set_null(null, case["null"], rates, mp, LENGTHS[case["lengths"]], case.get("null_scope"), const=case.get("null_const", False))
         lnl0 = float(null.lnL)
     except Exception as e:  # noqa: BLE001 - cannot even build the null: not judged, but visible
         acc.count("null_not_constructible")
@@ -251,9 +256,12 @@ def run_pairs(spec, acc):
     alns = [0] if codon else list(range(b["alns"]))
     mps = [0] if (codon or null in EQUAL_FREQ_MODELS) else list(range(b["mprobs"]))
     for tree, aln, lengths, mp in itertools.product(trees, alns, range(b["lengths"]), mps):
-        for rates in rate_vectors(params, b["values"]):
+        for k, rates in enumerate(rate_vectors(params, b["values"])):
             projection_case(acc, {"part": "pairs", "null": null, "alt": alt, "alt_kw": alt_kw, "tree": tree, "aln": aln,
                                   "codon": codon, "rates": rates, "mprobs": mp, "lengths": lengths})
+            if params and k % 3 == 1:
+                projection_case(acc, {"part": "pairs", "null": null, "alt": alt, "alt_kw": alt_kw, "tree": tree, "aln": aln,
+                                      "codon": codon, "rates": rates, "mprobs": mp, "lengths": lengths, "null_const": True})
     acc.sample({"nested pair": [null, alt], "why": _why, "null parameters set to": rate_vectors(params, b["values"])[:2]},
                "pairs")
 
@@ -565,11 +573,14 @@ def hypothesis_case(acc, case):
     opt = {"max_evaluations": case["max_evaluations"], "limit_action": "ignore"}
     if case["local"] is not True:
         opt.update(local=case["local"], seed=case["seed"])
-    what = f"{case['null']} vs {case['alt']}"
+    what = f"{case['null']} vs {case['alt']}" + (" with time-heterogeneous parameters" if case.get("alt_time_het") else "")
     try:
         null = get_app("model", case["null"], tree=tree, opt_args=dict(opt), show_progress=False)
-        alt = get_app("model", case["alt"], tree=tree, opt_args=dict(opt), show_progress=False,
-                      **({"optimise_motif_probs": True} if case.get("alt_kw") else {}))
+        akw = {"optimise_motif_probs": True} if case.get("alt_kw") else {}
+        if case.get("alt_time_het"):
+            akw["time_het"] = case["alt_time_het"]  # the alternative is richer only through its parameter scoping
+            akw["name"] = f"{case['alt']}-time-het"
+        alt = get_app("model", case["alt"], tree=tree, opt_args=dict(opt), show_progress=False, **akw)
         res = get_app("hypothesis", null, alt)(aln)
         if not hasattr(res, "LR"):
             acc.fail("hypothesis app: not completed", case, {"result": str(res)[:300], "models": what})
@@ -596,6 +607,11 @@ def run_fits(spec, acc):
                 fit_case(acc, case)
                 if limit is not None or local is True:
                     hypothesis_case(acc, dict(case, part="hypothesis"))
+    if get_sm(null).get_param_list() and not spec.get("codon", False):
+        # nesting by scope through the app: the same substitution model, the alternative with every rate free on every edge
+        for limit in [x for x in spec["limits"] if x is not None]:
+            hypothesis_case(acc, {"part": "hypothesis", "null": null, "alt": null, "alt_kw": {}, "alt_time_het": "max", "tree": spec["tree"],
+                                  "codon": False, "local": True, "max_evaluations": limit, "seed": 0})
     acc.sample({"pair": [null, alt], "settings": "local / global+local x max_evaluations x seeds"}, "fit")
 
 
